@@ -248,6 +248,38 @@ pub fn decode(t: &mut Tape) -> Case {
         }
         subs.push(sub(sub_tid(sbase), &format!("f{}", si), blocks));
     }
+    // Spill / reload through the own stack frame with a store in between whose target is the spill slot on one
+    // path and another object on the other path (a parameter register that is read nowhere else).
+    if g.t.prob(50) {
+        use BinOpType::*;
+        let sbase = 0x9000u64;
+        let p = var(PARAM_REGS[g.t.below(4)], 8);
+        let mut q = var(PARAM_REGS[g.t.below(4)], 8);
+        if q == p {
+            q = var(if p.name == "RDI" { "RSI" } else { "RDI" }, 8);
+        }
+        let off = *g.t.choose(&[-8i128, -16, -24, 8]);
+        let slot = ebin(IntAdd, evar(&var("RSP", 8)), econst(off, 8));
+        let b = |i: u64| sbase + 0x20 * i;
+        let b0 = blk(
+            blk_tid(b(0)),
+            vec![store(instr_tid(b(0), 0), slot.clone(), evar(&p))],
+            vec![jmp(instr_tid(b(0) + 0x1f, 0), Jmp::CBranch { target: blk_tid(b(1)), condition: evar(&var("ZF", 1)) }), jmp(instr_tid(b(0) + 0x1f, 1), Jmp::Branch(blk_tid(b(2))))],
+        );
+        let b1 = blk(blk_tid(b(1)), vec![assign(instr_tid(b(1), 0), &var("RAX", 8), slot.clone())], vec![jmp(instr_tid(b(1) + 0x1f, 0), Jmp::Branch(blk_tid(b(3))))]);
+        let b2 = blk(blk_tid(b(2)), vec![assign(instr_tid(b(2), 0), &var("RAX", 8), evar(&q))], vec![jmp(instr_tid(b(2) + 0x1f, 0), Jmp::Branch(blk_tid(b(3))))]);
+        let d = var(if g.t.flag() { "RCX" } else { "R8" }, 8);
+        let b3 = blk(
+            blk_tid(b(3)),
+            vec![
+                store(instr_tid(b(3), 0), evar(&var("RAX", 8)), econst(g.t.below(4) as i128, 8)),
+                load(instr_tid(b(3) + 1, 0), &d, slot.clone()),
+                assign(instr_tid(b(3) + 2, 0), &d, ebin(IntAdd, evar(&d), econst(1, 8))),
+            ],
+            vec![jmp(instr_tid(b(3) + 0x1f, 0), Jmp::Return(evar(&var("RBX", 8))))],
+        );
+        subs.push(sub(sub_tid(sbase), "spill_reload", vec![b0, b1, b2, b3]));
+    }
     let project = project(subs, externs, vec![sub_tid(0x1000)]);
     Case { project }
 }
@@ -340,6 +372,136 @@ fn block_gen_kill(project: &Project, b: &Term<Blk>, params: &BTreeSet<String>, c
         }
     }
     (gen, killed)
+}
+
+/// Dynamic under-approximation of "the entry value of a parameter register is read": concrete runs of the function in
+/// which every parameter register carries a tag. A tag follows unmodified 8-byte copies between registers and
+/// through 8-byte spill slots in the function's own stack frame (bare-variable stores, exact reloads); it counts as
+/// read when a tagged value is used in a computation, an address, a condition, a jump target or as a declared
+/// parameter of a returning extern call. Runs end at calls. Every read observed here happened on a real path.
+pub fn dynamic_demand(project: &Project, sub: &Term<Sub>, seeds: &[u64]) -> BTreeSet<String> {
+    use crate::irinterp::State;
+    let mut demanded: BTreeSet<String> = BTreeSet::new();
+    let has_spill = sub.term.blocks.iter().any(|b| b.term.defs.iter().any(|d| matches!(&d.term, Def::Store { value: Expression::Var(v), .. } if PARAM_REGS.contains(&v.name.as_str()))));
+    if !has_spill {
+        return demanded;
+    }
+    let blocks: BTreeMap<&Tid, &Term<Blk>> = sub.term.blocks.iter().map(|b| (&b.tid, b)).collect();
+    for seed in seeds {
+        let mut st = State::new(*seed);
+        let rsp0: u64 = 0x7ffe_0000_0000;
+        for (i, r) in GPRS.iter().enumerate() {
+            let v: u128 = if *r == "RSP" { rsp0 as u128 } else { ((0x10 + i as u128) << 40) + ((crate::tape::mix64(seed ^ i as u64) & 0xffff) << 4) as u128 };
+            st.set(r, v, 8);
+        }
+        for (i, f) in FLAGS.iter().enumerate() {
+            st.set(f, ((seed >> i) & 1) as u128, 1);
+        }
+        let mut vtag: BTreeMap<String, u8> = PARAM_REGS.iter().enumerate().map(|(i, r)| (r.to_string(), 1u8 << i)).collect();
+        let mut mtag: BTreeMap<u64, u8> = BTreeMap::new();
+        let mut read: u8 = 0;
+        let tags_of = |e: &Expression, vtag: &BTreeMap<String, u8>| -> u8 { e.input_vars().iter().map(|v| vtag.get(&v.name).copied().unwrap_or(0)).fold(0, |a, b| a | b) };
+        let in_stack = |a: u64| a >= rsp0 - 0x10000 && a < rsp0 + 0x10000;
+        let mut cur = match sub.term.blocks.first() {
+            Some(b) => b,
+            None => continue,
+        };
+        'run: for _ in 0..60 {
+            for d in &cur.term.defs {
+                match &d.term {
+                    Def::Assign { var, value } => {
+                        let v = st.eval(value);
+                        let w = u64::from(var.size) as usize;
+                        match value {
+                            Expression::Var(y) if y.size == var.size && w == 8 => {
+                                let t = vtag.get(&y.name).copied().unwrap_or(0);
+                                vtag.insert(var.name.clone(), t);
+                            }
+                            _ => {
+                                read |= tags_of(value, &vtag);
+                                vtag.insert(var.name.clone(), 0);
+                            }
+                        }
+                        st.set(&var.name, v.v, w);
+                    }
+                    Def::Load { var, address } => {
+                        read |= tags_of(address, &vtag);
+                        let a = st.eval(address).v as u64;
+                        let w = u64::from(var.size) as usize;
+                        let bytes: Vec<u8> = (0..w as u64).map(|i| mtag.get(&a.wrapping_add(i)).copied().unwrap_or(0)).collect();
+                        let t = if w == 8 && bytes.iter().all(|x| *x == bytes[0]) { bytes[0] } else { 0 };
+                        let v = st.read_mem(a, w);
+                        st.set(&var.name, v, w);
+                        vtag.insert(var.name.clone(), t);
+                    }
+                    Def::Store { address, value } => {
+                        read |= tags_of(address, &vtag);
+                        let a = st.eval(address).v as u64;
+                        let v = st.eval(value);
+                        let t = match value {
+                            Expression::Var(y) if v.w == 8 && in_stack(a) => vtag.get(&y.name).copied().unwrap_or(0),
+                            Expression::Var(_) => 0,
+                            _ => {
+                                read |= tags_of(value, &vtag);
+                                0
+                            }
+                        };
+                        for i in 0..v.w as u64 {
+                            mtag.insert(a.wrapping_add(i), t);
+                        }
+                        st.write_mem(a, v.w, v.v);
+                    }
+                }
+            }
+            let mut next: Option<&Tid> = None;
+            for j in &cur.term.jmps {
+                match &j.term {
+                    Jmp::Branch(t) => {
+                        next = Some(t);
+                        break;
+                    }
+                    Jmp::CBranch { target, condition } => {
+                        read |= tags_of(condition, &vtag);
+                        if st.eval(condition).v != 0 {
+                            next = Some(target);
+                            break;
+                        }
+                    }
+                    Jmp::BranchInd(e) | Jmp::Return(e) => {
+                        read |= tags_of(e, &vtag);
+                        break 'run;
+                    }
+                    Jmp::CallInd { target, .. } => {
+                        read |= tags_of(target, &vtag);
+                        break 'run;
+                    }
+                    Jmp::Call { target, return_ } => {
+                        if let Some(sym) = project.program.term.extern_symbols.get(target) {
+                            if !sym.no_return && return_.is_some() {
+                                for a in &sym.parameters {
+                                    if let Arg::Register { expr, .. } = a {
+                                        read |= tags_of(expr, &vtag);
+                                    }
+                                }
+                            }
+                        }
+                        break 'run;
+                    }
+                    Jmp::CallOther { .. } => break 'run,
+                }
+            }
+            match next.and_then(|t| blocks.get(t)) {
+                Some(b) => cur = b,
+                None => break,
+            }
+        }
+        for (i, r) in PARAM_REGS.iter().enumerate() {
+            if read & (1 << i) != 0 {
+                demanded.insert(r.to_string());
+            }
+        }
+    }
+    demanded
 }
 
 /// Registers demanded at the entry of `sub` with the kinds of their first uses.
@@ -485,6 +647,20 @@ pub fn check_case(case: &Case, ctx: &mut Ctx) -> CaseResult {
                     format!("C14:missed-parameter:{}", sig_kind),
                     format!("function {}: register {} is read before being overwritten (first uses: {:?}) but is not a reported parameter {:?}\n{}", tid, r, kinds, reported, project.program.term),
                 )?;
+            }
+        }
+        // memory flows: entry values that travel through a spill slot of the own stack frame (dynamic oracle)
+        let dynd = dynamic_demand(&project, s, &[0x5a5a_0001, 0x1234_5676, 0x0f0f_00ff, 0x7777_7770]);
+        for r in &dynd {
+            if !dem.contains_key(r) {
+                ctx.label("demand-kind:dynamic-only(spill-and-reload)");
+                any_nontrivial = true;
+                if !reported.contains(r) {
+                    ctx.report(
+                        "C14:missed-parameter:reload-of-spilled-parameter",
+                        format!("function {}: a concrete run reads the entry value of {} after it was spilled to the stack frame and reloaded, but it is not a reported parameter {:?}\n{}", tid, r, reported, project.program.term),
+                    )?;
+                }
             }
         }
         if reported.len() > dem.len() {
